@@ -27,7 +27,7 @@ EXPLANATION = (
     "component name as is - None tests only, never a truthiness fallback (names 0 / '' are legal). NOT decided: equality of failure_cases with the set of offending cells."
 )
 LEVEL_RULE = "one obligation per handler / lazy use / validate method / fenced call"
-FLOORS = {"R1": 4, "R2": 20, "R3": 12, "R4": 6, "R5": 3, "R6": 6, "R7": 5, "R8": 1}
+FLOORS = {"R1": 4, "R2": 20, "R3": 12, "R4": 6, "R5": 3, "R6": 6, "R7": 5, "R8": 1, "R9": 3}
 
 EH = "pandera/api/base/error_handler.py::ErrorHandler"
 # A handler may drop the caught SchemaError only when the fenced body does nothing but expand a regex column name:
@@ -480,7 +480,64 @@ def r8_per_column_schema(ctx):
         raise AnalysisError("ColumnBackend.validate: per-column array validation call not found")
 
 
+def r9_case_attribution(ctx):
+    """Which column a tabular failure case is attributed to (pandas consolidate_failure_cases): the per-row `column`
+    labels the failure cases carry themselves win, then the error's column_name, then the schema name.  And the error
+    handler's accessors hand out exactly what was collected."""
+    from ..util import decision_function
+    ix = ctx.ix
+    f = ix.func("pandera/backends/pandas/error_formatters.py::consolidate_failure_cases")
+    ctx.touched(f)
+    loopvars = {l.target.id: "_err" for l in walk_no_nested(f.node) if isinstance(l, ast.For) and isinstance(l.target, ast.Name)
+                and "schema_errors" in txt(l.iter)}
+    var = None
+    for c in calls_in(f.node):
+        v = kw(c, "column")
+        if v is not None and callee_last(c) == "assign":
+            names = [x.id for x in ast.walk(v) if isinstance(x, ast.Name) and x.id not in loopvars and x.id not in ("isinstance", "tuple")]
+            var = names[0] if names else None
+    if var is None:
+        raise AnalysisError("consolidate_failure_cases: the column attributed to tabular failure cases was not found")
+    names_, table = decision_function(f.node, var, loopvars)
+    got = {tuple(sorted(zip(names_, k))): v for k, v in table.items()}
+    def val(assign):
+        a = dict(assign)
+        own = [k for k in a if k.startswith("'column' in ") or k.startswith('"column" in ')]
+        if own and a[own[0]]:
+            return "_err.failure_cases['column']"
+        cn = [k for k in a if k == "_err.column_name is None"]
+        if cn and not a[cn[0]]:
+            return "_err.column_name"
+        return "_err.schema.name"
+    probs = []
+    need = {"_err.column_name is None"}
+    if not any(k.startswith(("'column' in ", '"column" in ')) for k in names_) or not need <= set(names_):
+        probs.append(f"decided on {list(names_)}")
+    for assign, v in got.items():
+        if v is None:
+            continue   # the column is not assigned on this path (scalar failure cases)
+        if any(k.startswith(f"isinstance({var},") and val_ for k, val_ in assign):
+            continue   # re-wrapping of an already chosen tuple label ([column] * n), not a choice of the column
+        if v.replace('"', "'") != val(assign):
+            probs.append(f"under {dict(assign)} the column is `{v}`, documented precedence gives `{val(assign)}`")
+            break
+    ctx.ob("R9", f, "tabular failure cases keep their own per-row column labels, then column_name, then the schema name", not probs,
+           "precedence: failure_cases['column'] > err.column_name > err.schema.name" if not probs else
+           "; ".join(probs) + ": cells of a frame-level error (joint uniqueness) are attributed to a column that does not hold them")
+    eh = ix.cls(EH)
+    for prop, store in (("collected_errors", "_collected_errors"), ("schema_errors", "_schema_errors")):
+        getters = [g for g in eh.methods.get(prop, []) if g.is_property() and not any("setter" in d for d in g.decorator_names())]
+        for g in getters:
+            body = [b for b in g.node.body if not (isinstance(b, ast.Expr) and isinstance(b.value, ast.Constant))]
+            ok = len(body) == 1 and isinstance(body[0], ast.Return) and txt(body[0].value) == f"self.{store}"
+            ctx.ob("R9", g, f"ErrorHandler.{prop} hands out exactly what collect_error stored", ok,
+                   f"return self.{store}" if ok else
+                   f"`{txt(body[-1])[:80]}`: the accessor filters / rebuilds the collected errors, while collect_error raises the unfiltered error in "
+                   "eager mode - lazy validation can return normally where eager validation raises")
+
+
 def run(ctx):
+    r9_case_attribution(ctx)
     r8_per_column_schema(ctx)
     r7_column_attribution(ctx)
     r1_collect_error(ctx)
